@@ -187,7 +187,8 @@ def boundary_ns(name, big):
         o.add(n >= 1, a * n + b > 65535)
         o.minimize(n)
         assert o.check() == z3.sat and o.model()[n].as_long() == n0
-    ns = [n0 - 2, n0 - 1, n0, n0 + 1, n0 + 40]
+    h0 = (32767 - b) // a + 1          # first n whose size needs the 16th bit (signed/unsigned slips)
+    ns = [h0 - 1, h0, h0 + 1, (h0 + n0) // 2, n0 - 2, n0 - 1, n0, n0 + 1, n0 + 40]
     if big:
         ns += [2 * n0, 4 * n0]
     return ns
@@ -240,7 +241,7 @@ def harnesses():
         hs.append(Harness(id="C14.program." + name, fn=make_program(name, False),
                           bounds=["scale n: solver-chosen index into the boundary set of template " + name],
                           per_path=120, budget=600, group="program templates",
-                          tier="quick" if name in COUNT_TEMPLATES else "thorough",
+                          tier="quick",
                           functions=("microjs.context.Context.eval",)))
         if name in SIZE_TEMPLATES:
             hs.append(Harness(id="C14.program-big." + name, fn=make_program(name, True),
